@@ -28,6 +28,10 @@ func (c *Console) log(p func(string)) func(goja.FunctionCall) goja.Value {
 				panic(err)
 			}
 
+			if ret == nil {
+				// a native function put in place of util.format may return no value at all
+				ret = goja.Undefined()
+			}
 			p(ret.String())
 		} else {
 			panic(c.runtime.NewTypeError("util.format is not a function"))
